@@ -280,6 +280,11 @@ class AdvWorld(PeerWorld):
             if sig[0] == 'recv_bundle_finished' and sig[3] == 'success':
                 res = self.bus_call(self.proc, PATH, 'recv_bundle_pop_data', sig[1], iface=IFACE)
                 self.proc.bus.drain_records()
+                if res[0] != 'ok' and closed and ref.phase in ('term', 'dead'):
+                    # the transfer completed the termination: the endpoint announced it and closed in
+                    # the same run to quiescence, before this harness (which pops afterwards) could
+                    # fetch the data.  After the peer's own SESS_TERM deliveries are optional here.
+                    continue
                 self.popped.append(bytes(res[1]).hex() if res[0] == 'ok' else 'POP-FAILED')
         if kind == 'any-parse' and len(self.popped) == len(ref.delivered) + 1:
             # after the peer's SESS_TERM the endpoint may still accept a transfer; if it
